@@ -43,6 +43,15 @@ func (c17) Gen(rng *sim.Rand, tier string) *Case {
 		}
 	}
 	c.Params["chan"] = chanMask
+	// some channel-backed entries use a caller-supplied unbuffered channel: a
+	// notification then reaches the waiter only if it is parked on the channel
+	uchan := 0
+	for e := 0; e < c17MaxEntries; e++ {
+		if chanMask&(1<<uint(e)) != 0 && rng.Chance(0.3) {
+			uchan |= 1 << uint(e)
+		}
+	}
+	c.Params["uchan"] = uchan
 	for i := 0; i < nt; i++ {
 		var s []Op
 		reg := [2]bool{}
@@ -56,20 +65,36 @@ func (c17) Gen(rng *sim.Rand, tier string) *Case {
 				if reg[e] {
 					s = append(s, Op{K: "unreg", A: 2*i + e})
 				} else {
-					s = append(s, Op{K: "reg", A: 2*i + e, B: rng.Range(1, 7)})
+					s = append(s, Op{K: "reg", A: 2*i + e, B: c17Mask(rng)})
 				}
 				reg[e] = !reg[e]
 			case 1:
-				s = append(s, Op{K: "notify", B: rng.Range(1, 7)})
+				s = append(s, Op{K: "notify", B: c17Mask(rng)})
 			case 2:
 				s = append(s, Op{K: "events"})
 			case 3:
 				s = append(s, Op{K: "take", A: 2*i + e})
 			}
 		}
+		if uchan&(1<<uint(2*i)) != 0 && rng.Chance(0.7) {
+			// the owner parks on its unbuffered channel as its last action
+			if !reg[0] {
+				s = append(s, Op{K: "reg", A: 2 * i, B: c17Mask(rng)})
+			}
+			s = append(s, Op{K: "wait", A: 2 * i})
+		}
 		c.Scripts = append(c.Scripts, s)
 	}
 	return c
+}
+
+// c17Mask draws an event mask over the six low bits (In, Pri, Out, Err, HUp and
+// one undefined bit), mostly small ones.
+func c17Mask(rng *sim.Rand) int {
+	if rng.Chance(0.6) {
+		return rng.Range(1, 7)
+	}
+	return rng.Range(1, 63)
 }
 
 type c17In struct {
@@ -164,6 +189,11 @@ func (c17) Exec(t *testing.T, c *Case, replay []int) *Outcome {
 			curNotify[i] = -1
 		}
 		takes := make([][]ival, ne) // successful takes per channel entry
+		type waitRec struct {
+			e, task  int
+			inv, ret int64
+		}
+		var waits []*waitRec
 		hist := sim.NewHash()
 		for e := 0; e < ne; e++ {
 			e := e
@@ -182,7 +212,11 @@ func (c17) Exec(t *testing.T, c *Case, replay []int) *Outcome {
 				}
 			}
 			if c.Params["chan"]&(1<<uint(e)) != 0 {
-				ce, ch := waiter.NewChannelEntry(nil)
+				var given chan struct{}
+				if c.Params["uchan"]&(1<<uint(e)) != 0 {
+					given = make(chan struct{})
+				}
+				ce, ch := waiter.NewChannelEntry(given)
 				inner := ce.Callback
 				entries[e] = ce
 				chans[e] = ch
@@ -248,6 +282,14 @@ func (c17) Exec(t *testing.T, c *Case, replay []int) *Outcome {
 						ret := s.Stamp()
 						hist.Byte(byte(m))
 						ops = append(ops, porcupine.Operation{ClientId: id, Input: c17In{"events", 0, 0}, Call: inv, Output: uint8(m), Return: ret})
+					case "wait":
+						if chans[e] == nil || c.Params["uchan"]&(1<<uint(e)) == 0 {
+							continue
+						}
+						wr := &waitRec{e: e, task: id, inv: s.Stamp()}
+						waits = append(waits, wr)
+						<-chans[e] // really blocks: only a notification (or the harness at the end) releases it
+						wr.ret = s.Stamp()
 					case "take":
 						if chans[e] == nil {
 							continue
@@ -273,7 +315,28 @@ func (c17) Exec(t *testing.T, c *Case, replay []int) *Outcome {
 			fail("stuck", fmt.Sprintf("step budget %d exhausted with runnable tasks left (a lock is never released)", s.MaxSteps))
 		}
 		for _, id := range blocked {
-			fail("blocked", fmt.Sprintf("task %d is blocked inside a wait-queue operation", id))
+			var wr *waitRec
+			for _, x := range waits {
+				if x.task == id && x.ret == 0 {
+					wr = x
+				}
+			}
+			if wr == nil {
+				fail("blocked", fmt.Sprintf("task %d is blocked inside a wait-queue operation", id))
+				continue
+			}
+			// parked on its unbuffered channel: legitimate unless a notification that had to reach it came by
+			for ni, n := range nots {
+				if n.ret == 0 || n.inv < wr.inv {
+					continue
+				}
+				for _, r := range regs[wr.e] {
+					if r.mask&n.mask != 0 && r.ret != 0 && r.ret < n.inv && (r.uinv == 0 || r.uinv > n.ret) {
+						fail("lost-token", fmt.Sprintf("entry %d (unbuffered channel): its waiter has been parked on the channel since stamp %d, notify #%d (mask %d, stamps %d-%d) had to reach it, yet the waiter still sleeps", wr.e, wr.inv, ni, n.mask, n.inv, n.ret))
+					}
+				}
+			}
+			o.Probes["waiter_parked_on_unbuffered_channel"]++
 		}
 		// ---- interval oracle ----
 		active := func(r *regRec, from, to int64) bool { // possibly registered at some instant of [from,to]
@@ -323,8 +386,8 @@ func (c17) Exec(t *testing.T, c *Case, replay []int) *Outcome {
 		}
 		// ---- channel entries: a notification is never lost ----
 		for e := 0; e < ne; e++ {
-			if chans[e] == nil {
-				continue
+			if chans[e] == nil || c.Params["uchan"]&(1<<uint(e)) != 0 {
+				continue // (an unbuffered channel keeps nothing: judged through its parked waiter above)
 			}
 			var lastMust *notRec
 			nmay := 0
